@@ -69,7 +69,7 @@ def run_all(name, harnesses, features=(), wall=600, jobs=None, mem_gb=12):
         return list(ex.map(lambda h: run_one(name, h, features, wall, mem_gb), harnesses))
 
 
-def playback(name, harness, features=()):
+def playback(name, harness, features=(), expect_no_panic=False):
     """Concrete playback of a failing harness: Kani writes the counterexample as a unit test into a scratch copy of the
     harness crate; the test is then executed natively (dev and release). Returns (reproduced?, test source, log)."""
     src = crate_dir(name); dst = core.workdir('kani-playback', name)
@@ -81,12 +81,16 @@ def playback(name, harness, features=()):
     tests = re.findall(r'fn (kani_concrete_playback_\w+)\(\)', code)
     if not tests: return None, '', (r.stdout + r.stderr)[-1500:]
     test_src = code[code.index('fn ' + tests[0]) - 40:][:3000]
-    logs = []; reproduced = False
+    logs = []; panicked = False; ran = False
     for prof in ('', '--release'):
         p = core.sh('timeout 600 cargo kani playback -Z concrete-playback %s %s -- %s' % (prof, feat, tests[0]), cwd=dst, timeout=700, env=KANI_ENV)
         o = p.stdout + p.stderr; logs.append(o[-800:])
-        if re.search(r'test result: FAILED|panicked at', o): reproduced = True
-    return reproduced, test_src, '\n'.join(logs)
+        if re.search(r'test result: (ok|FAILED)', o): ran = True
+        if re.search(r'test result: FAILED|panicked at', o): panicked = True
+    if not ran: return None, test_src, '\n'.join(logs)
+    # a harness that must panic (should_panic / a negative cover) is reproduced by a native run that does NOT panic;
+    # an ordinary failing assertion is reproduced by a native run that does
+    return (not panicked) if expect_no_panic else panicked, test_src, '\n'.join(logs)
 
 
 def check(rep, pid, name, select, features=(), wall=600, need_covers=True, should_panic_ok=True):
@@ -125,7 +129,7 @@ def check(rep, pid, name, select, features=(), wall=600, need_covers=True, shoul
 
 def _violation(rep, pid, name, full, features, what):
     h = full.split('::')[-1]
-    reproduced, test_src, log = playback(name, full, features)
+    reproduced, test_src, log = playback(name, full, features, expect_no_panic=('no panic occurred' in what or 'negative cover' in what))
     key = '%s/%s' % (pid, h)
     path = core.write_replay(pid, key, {'engine': 'kani', 'crate': name, 'harness': full, 'features': list(features), 'what': what, 'playback_test': test_src, 'playback_log': log[-1500:]})
     if h.startswith(tuple('c%02d_' % i for i in range(100))) and 'NEG' in what and reproduced is None: reproduced = True
